@@ -88,6 +88,13 @@ Definition is_keyword (s : string) : bool := existsb (String.eqb s) keywords.
 Definition ident_okb (s : string) : bool :=
   ident_lexb s && negb (String.eqb s "_") && negb (is_keyword s).
 
+(** what [syn]'s path-segment parser accepts as the identifier of a segment (ASCII part):
+    identifiers, and the keywords [super self Self crate try] ([PathSegment::parse_helper]) *)
+Definition path_keywords : list string := ["super"; "self"; "Self"; "crate"; "try"].
+Definition path_seg_okb (s : string) : bool :=
+  ident_lexb s && negb (String.eqb s "_")
+  && (negb (is_keyword s) || existsb (String.eqb s) path_keywords).
+
 (** ** substring search: [str::contains], [str::starts_with] *)
 Fixpoint starts_with (p s : string) : bool :=
   match p with
